@@ -14,11 +14,11 @@ Open Scope Z_scope.
 
 Definition acct_statement (pol : apolicy) : Prop :=
   forall max_req destroy_oneway ops, let k := mkACfg max_req pol destroy_oneway in let a := arun k ops ainit in
-  (* the gauge is the number of admitted-and-not-finished counted requests: never negative *)
+  (* the gauge is the number of accepted-and-not-finished counted requests: never negative *)
   a_active a = Z.of_nat (aactive_count a) /\ 0 <= a_active a /\
   (* the Requests resource likewise, for EVERY max_requests including 0 = unlimited (Increase / Decrease always count) *)
   a_req a = a_active a /\ 0 <= a_req a /\
-  (* nothing is leaked: when every admitted request is finished both are back at zero *)
+  (* nothing is leaked: when every accepted request is finished both are back at zero *)
   ((forall s, (s < a_n a)%nat -> as_live (a_st a s) = false) -> a_active a = 0 /\ a_req a = 0) /\
   (* every increment is matched by exactly one decrement, made when the request finishes *)
   (forall s, (s < a_n a)%nat ->
@@ -46,7 +46,7 @@ Proof. exact (eq_refl true). Qed.
 Theorem c10_pool_oneway_finishes : poolacct_src_destroy_oneway = true.
 Proof. exact (eq_refl true). Qed.
 
-(* non-vacuity: ping-pong pool, max_requests 2: two-way + one-way admitted, the connection of the one-way request closes
+(* non-vacuity: ping-pong pool, max_requests 2: two-way + one-way accepted, the connection of the one-way request closes
    before its send (send fails after admission), a third request is refused by the breaker, then everything finishes *)
 Example c10_pool_example :
   let k := mkACfg 2 poolacct_src_pingpong poolacct_src_destroy_oneway in
@@ -151,17 +151,17 @@ Print Assumptions c10_pool_h2_unlocked_orphan.
 (* ==== max_requests under CONCURRENT admissions ========================================================================
    Every pool's NewStream tests Requests().CanCreate() and calls Requests().Increase() later, two separate calls on
    types.Resource with nothing holding them together (Model/PoolAdmit.v: three callers, limit 1).  The threshold statement
-   "never more admitted requests than max_requests, under every schedule" is REFUTED (two callers both pass the test);
+   "never more accepted requests than max_requests, under every schedule" is REFUTED (two callers both pass the test);
    reproduced on the real HTTP/1, ping-pong, multiplex and HTTP/2 pools (finder xpool:max-requests-exceeded:concurrent-newstream:
    <pool>, listed: the repair is an atomic test-and-increment in types.Resource, an interface change across all pools - the same
    root cause as the listed L4 finding).  Partial: admissions that do not overlap never overshoot; the sequential theorems
    above and c09_books hold for every history of atomic operations. *)
-Theorem c10_pool_requests_threshold_concurrent_refuted : ~ admit_statement req_cfg.
+Theorem c10_pool_requests_threshold_concurrent_refuted : ~ entry_statement req_cfg.
 Proof. exact req_check_then_increase_refuted. Qed.
 Print Assumptions c10_pool_requests_threshold_concurrent_refuted.
 
 Theorem c10_pool_requests_threshold_serial : forall a b c, (a < 3)%nat -> (b < 3)%nat -> (c < 3)%nat ->
-  admit_good (adrun (serial [a; b; c] 2) req_cfg) = true.
+  entry_good (adrun (serial [a; b; c] 2) req_cfg) = true.
 Proof. exact req_serial_safe. Qed.
 Print Assumptions c10_pool_requests_threshold_serial.
 
